@@ -411,7 +411,7 @@ func ruleC11R5(c *Ctx) {
 	ne := c.P.Fn("output/fluentdforward.newEncoder")
 	okT := false
 	for _, st := range storesToField(ne, "output/fluentdforward.chunkEncoder.tag") {
-		if p, ok := resolve(st.Val).(*ssa.Parameter); ok && p.Name() == "tag" {
+		if p, ok := resolve(st.Val).(*ssa.Parameter); ok && isStringType(p.Type()) {
 			okT = true
 		}
 	}
@@ -419,7 +419,7 @@ func ruleC11R5(c *Ctx) {
 	ncm := c.P.Fn("output/fluentdforward.(*Config).NewChunkMaker")
 	okN := false
 	for _, s := range c.callsTo(ncm, anchorPred("output/fluentdforward.newEncoder")) {
-		if p, ok := resolve(s.Common().Args[0]).(*ssa.Parameter); ok && p.Name() == "tag" {
+		if p, ok := resolve(s.Common().Args[0]).(*ssa.Parameter); ok && isStringType(p.Type()) {
 			okN = true
 		}
 	}
@@ -465,12 +465,23 @@ func ruleC11R6(c *Ctx) {
 		if bo, ok := strip(s.Common().Args[0]).(*ssa.BinOp); ok && bo.Op == token.ADD && fieldOf(bo.Y) == "output/shared.chunkIDGenerator.suffix" {
 			okEnd = true
 		}
+		// or: a format ending in %s whose last argument is the suffix field
+		if k, ok := strip(s.Common().Args[0]).(*ssa.Const); ok && k.Value != nil && k.Value.Kind() == constant.String && strings.HasSuffix(constant.StringVal(k.Value), "%s") {
+			el := varargElems(s.Common().Args[1])
+			if len(el) > 0 {
+				// the element stored last (highest index) — varargElems keeps store order
+				last := el[len(el)-1]
+				if fieldOf(unbox(last)) == "output/shared.chunkIDGenerator.suffix" {
+					okEnd = true
+				}
+			}
+		}
 	}
 	c.check(okEnd, "C11.R6", gen, "generated ids end with the generator's suffix", gen.Pos(), "format + suffix", "the suffix is not the end of the generated id")
 	ng := c.P.Fn("output/shared.newChunkIDGenerator")
 	okS := false
 	for _, st := range storesToField(ng, "output/shared.chunkIDGenerator.suffix") {
-		if p, ok := resolve(st.Val).(*ssa.Parameter); ok && p.Name() == "suffix" {
+		if p, ok := resolve(st.Val).(*ssa.Parameter); ok && isStringType(p.Type()) {
 			okS = true
 		}
 	}
